@@ -531,8 +531,10 @@ def observed_orders(case, port, result):
     out = {}
     for pid, seq in seqs.items():
         if pid in rev and all(t in rev for t, _ in seq):
-            declared = {(l[0], l[1]) for l in case['meta']['pages'].get(rev[pid], {}).get('links', [])}
-            if {rev[t] for t, _ in seq} == declared:       # complete observation of that page
+            # only a COMPLETE observation (every declared (target, link-or-embedded) context seen) replaces the declared order:
+            # a context that never reached the filters must stay in the reference
+            declared = {((l[0], l[1]), bool(l[2])) for l in case['meta']['pages'].get(rev[pid], {}).get('links', [])}
+            if {(rev[t], bool(i)) for t, i in seq} == declared:
                 out[rev[pid]] = [(rev[t], i) for t, i in seq]
     return out
 
